@@ -61,10 +61,11 @@ def mk_names(nm):
     if nm is None:
         return None
     f, v = nm["form"], nm["v"]
+    idx = nm.get("idx")  # row labels of the names sheet (index_col=0 of the Excel file); None = RangeIndex
     if f == "row":
-        return pd.DataFrame([list(v)])
+        return pd.DataFrame([list(v)], index=idx)
     if f == "tab":
-        return pd.DataFrame([[np.nan if c is None else c for c in r] for r in v])
+        return pd.DataFrame([[np.nan if c is None else c for c in r] for r in v], index=idx)
     if f == "list":
         return list(v)
     if f == "lists":
@@ -530,17 +531,48 @@ def names_variants(rng, flat_single, multi=None):
         setups, ref, _ = multi
         w = max(len(s) for s in setups)
         out.append(({"form": "lists", "v": setups}, ref))
-        out.append(({"form": "tab", "v": [s + [None] * (w - len(s)) for s in setups]}, ref))
+        st = rng.choice(LABEL_STYLES + ["range"])
+        out.append(({"form": "tab", "v": [s + [None] * (w - len(s)) for s in setups], "idx": None if st == "range" else row_labels(rng, len(setups), st)}, ref))
     return out
+
+
+LABEL_STYLES = ["one-based", "ascending", "descending", "shuffled", "natural", "ints-unordered", "duplicated"]
+WORDS = ["roof", "base", "mid", "top", "deck", "pier", "span", "east", "west", "north", "south", "core", "arch", "wing"]
+
+
+def row_labels(rng, m, style=None):
+    """row labels of a table whose row ORDER carries the meaning (setups, points, lines, nodes): the labels must never matter"""
+    style = style or rng.choice(LABEL_STYLES)
+    if style == "one-based":
+        return list(range(1, m + 1))
+    if style == "ascending":
+        return ["s%02d" % i for i in range(m)]
+    if style == "descending":
+        return ["s%02d" % i for i in range(m)][::-1]
+    if style == "shuffled":
+        w = sorted(rng.sample(WORDS, m)) if m <= len(WORDS) else ["w%03d" % i for i in range(m)]
+        out = w[:]
+        while m > 1 and out == w:
+            rng.shuffle(out)
+        return out
+    if style == "natural":  # setup9, setup10, setup11 ...: natural order, lexicographically setup10 < setup9
+        return ["setup%d" % (i + 9) for i in range(m)]
+    if style == "ints-unordered":
+        out = list(range(10, 10 + m))[::-1]
+        if m > 2:
+            out[0], out[-1] = out[-1], out[0]
+            out = out[1:] + out[:1]
+        return out
+    return [["A", "B"][(i // 2) % 2] for i in range(m)] if m > 2 else ["A"] * m  # duplicated
 
 
 def lines_sheet(rng, n, w, m=None):
     m = m or rng.randint(1, 3)
-    return sheet(["n%d" % i for i in range(w)], list(range(1, m + 1)), [[rng.randint(1, n) for _ in range(w)] for _ in range(m)])
+    return sheet(["n%d" % i for i in range(w)], row_labels(rng, m), [[rng.randint(1, n) for _ in range(w)] for _ in range(m)])
 
 
 def bg_nodes_sheet(rng, m):
-    return sheet(XYZ, list(range(1, m + 1)), [[dy(rng), dy(rng), dy(rng)] for _ in range(m)])
+    return sheet(XYZ, row_labels(rng, m), [[dy(rng), dy(rng), dy(rng)] for _ in range(m)])
 
 
 def gen_geo1(rng, names, extra=0, opts=(), order=None):
@@ -583,9 +615,9 @@ def gen_geo2(rng, names, opts=(), ncstr=None, npts=None, cperm=None):
     for (i, j) in slots[len(must):]:
         if rng.random() < 0.3:
             grid[i][j] = rng.choice(must)
-    idx = list(range(1, npts + 1))
+    idx = row_labels(rng, npts)
     pts = [[8.0 * (i + 1) + dy(rng, 0, 7), 8.0 * ((i * 5) % 7) + dy(rng, 0, 7), dy(rng)] for i in range(npts)]
-    S = {"points coordinates": sheet(XYZ, idx, pts), "mapping": sheet(XYZ, idx, grid)}
+    S = {"points coordinates": sheet(XYZ, idx, pts), "mapping": sheet(XYZ, idx if rng.random() < 0.7 else row_labels(rng, npts), grid)}
     if "constraints" in opts:
         ccols = rng.sample(list(names), rng.randint(1, n)) if cperm is None else [names[i] for i in cperm]
         S["constraints"] = sheet(ccols, cn, [[rng.choice([dy(rng), dy(rng), None, 0.5]) for _ in ccols] for _ in cn])
@@ -594,7 +626,7 @@ def gen_geo2(rng, names, opts=(), ncstr=None, npts=None, cperm=None):
     if "sensors lines" in opts:
         S["sensors lines"] = lines_sheet(rng, npts, 2)
     if "sensors surfaces" in opts:
-        S["sensors surfaces"] = sheet(["i", "j", "k"], [1, 2][:rng.randint(1, 2)], [])
+        S["sensors surfaces"] = sheet(["i", "j", "k"], row_labels(rng, rng.randint(1, 2)), [])
         S["sensors surfaces"]["rows"] = [rng.sample(range(1, npts + 1), 3) for _ in S["sensors surfaces"]["idx"]]
     if "BG nodes" in opts:
         S["BG nodes"] = bg_nodes_sheet(rng, 3)
@@ -607,6 +639,13 @@ def gen_geo2(rng, names, opts=(), ncstr=None, npts=None, cperm=None):
 
 def cp(x):
     return json.loads(json.dumps(x))
+
+
+def near_variants(n):
+    """labels that LOOK like the name n but are not equal to it: each makes the sensor absent"""
+    fw = "".join(chr(ord(ch) + 0xFEE0) if i == 0 and "!" <= ch <= "~" else ch for i, ch in enumerate(n))
+    return [("a trailing blank", n + " "), ("a leading blank", " " + n), ("another letter case", n.swapcase()),
+            ("a full-width look-alike", fw), ("a numeric-looking suffix", n + ".0"), ("a tab", n + "\t")]
 
 
 def faults(kind, case, rng):
@@ -671,6 +710,15 @@ def faults(kind, case, rng):
             for k in (main, other):
                 c["sheets"][k]["idx"] = ["Q_" + tgt if str(i) == tgt else i for i in c["sheets"][k]["idx"]]
         mut("sensor name absent from both tables", ren)
+        for lab, var in near_variants(tgt):
+            if var not in [str(i) for i in S0[main]["idx"]]:
+                def renv(c, var=var):
+                    for k in (main, other):
+                        c["sheets"][k]["idx"] = [var if str(i) == tgt else i for i in c["sheets"][k]["idx"]]
+                mut("sensor name absent (tables carry %s)" % lab, renv)
+        lab, var = near_variants(tgt)[rng.randrange(4)]
+        if case["names"]["form"] in ("row", "list", "arr") and var not in names:
+            mut("sensor name absent (names carry %s)" % lab, lambda c, var=var: c["names"].update(v=[var if x == tgt else x for x in c["names"]["v"]]))
 
         def dup(c):
             for k in (main, other):
@@ -685,6 +733,11 @@ def faults(kind, case, rng):
         def gone(c):
             c["sheets"][other]["rows"] = [[(0 if x == tgt else x) for x in r] for r in c["sheets"][other]["rows"]]
         mut("sensor name absent from mapping", gone)
+        cells0 = [x for r in S0[other]["rows"] for x in r if isinstance(x, str)]
+        for lab, var in near_variants(tgt):
+            if var not in cells0 and var not in names:
+                mut("sensor name absent (mapping carries %s)" % lab,
+                    lambda c, var=var: c["sheets"][other].update(rows=[[(var if x == tgt else x) for x in r] for r in c["sheets"][other]["rows"]]))
         if "sensors sign" in S0:
             if len(S0["sensors sign"]["rows"]) >= 2:  # dropping the only row leaves an EMPTY sheet = an omitted optional sheet: not a fault
                 mut("sensors sign:row dropped", lambda c: (c["sheets"]["sensors sign"]["rows"].pop(), c["sheets"]["sensors sign"]["idx"].pop()))
@@ -828,6 +881,19 @@ def run(ctx):
             c = add(kind, path, nm, r_, S, plot=mk_plot(len(flat), kind) if path != "func" and rng.random() < 0.6 else None, arr=arr)
             if rng.random() < ctx.n(0.45, 0.3):
                 valid_for_faults.append(c)
+    # ---- (3b) multi-setup names as a row table whose row LABELS are in every kind of order: setups follow row POSITION
+    for st in LABEL_STYLES + ["range"]:
+        for kind in ("geo1", "geo2"):
+            for path in ("func", rng.choice(multi_paths)):
+                nset = rng.choice([3, 3, 4])
+                setups, ref, flat = multi_layout(rng, rng.randint(nset, nset + 2), nset=nset, k=rng.randint(1, 2))
+                w = max(len(x) for x in setups)
+                nm = {"form": "tab", "v": [x + [None] * (w - len(x)) for x in setups], "idx": None if st == "range" else row_labels(rng, nset, st)}
+                S = gen_geo1(rng, flat, extra=1, opts=("sensors lines",)) if kind == "geo1" else gen_geo2(rng, flat, opts=[x for x in G2_OPT if rng.random() < 0.4])
+                c = add(kind, path, nm, ref, S, plot=mk_plot(len(flat), kind) if path != "func" else None)
+                ctx.hist("names row labels", st)
+                if st == "shuffled" and path == "func":
+                    valid_for_faults.append(c)
     for sub in (["ab", "a", "w"], ["S10", "k9", "S1"], ["u22", "u2"], ["Acc11", "Acc1", "T", "ab", "b"]):
         names = list(sub)
         rng.shuffle(names)
